@@ -38,6 +38,9 @@ func (q *Command) Sanitize(args ...any) (string, error) {
 			str = part
 		case int:
 			argIdx := part - 1
+			if argIdx < 0 {
+				return "", fmt.Errorf("invalid placeholder: $%d", part)
+			}
 			if argIdx >= len(args) {
 				return "", fmt.Errorf("insufficient arguments")
 			}
